@@ -240,4 +240,48 @@ theorem run_direct_items_done (h : Handle) (q : Query) (hq : q.filterOk = true) 
   rw [this]
   simp [Function.comp_def]
 
+/-! ### the half that needs no hypothesis: whatever is in the channel was sent by the server under
+the search's ID, in that order, and is classified by its protocolOp number -/
+
+/-- what the receiver gets for a frame the driver hands on, by the protocolOp number alone -/
+def recvOfFrame (D : Content) (f : Conn.Frame) : Recv :=
+  if isItemOp f.op then .item (itemOf D f) else .done (resOf D f)
+
+theorem recvOf_frame (D : Content) {it : Conn.Item} (h : clsOk it) : recvOf D it = recvOfFrame D (Conn.itemFrame it) := by
+  cases it with
+  | entry f =>
+    have h1 : isItemOp f.op = true := h
+    simp [recvOf, recvOfFrame, Conn.itemFrame, h1]
+  | done f =>
+    have h2 : f.op = 5 := h.1
+    simp [recvOf, recvOfFrame, Conn.itemFrame, h2, isItemOp]
+
+theorem fullScript_sound (D : Content) {s : Conn.St} (hr : Conn.RouteInv s) (hwf : ChanWF s) {c : Nat} {ch : Conn.Chan}
+    {o : Conn.Op} (hc : s.chans[c]? = some ch) (ho : s.ops[ch.opIdx]? = some o) :
+    (ch.items.map Conn.itemFrame).Sublist (sentFor s o.id) ∧
+    (∀ f ∈ ch.items.map Conn.itemFrame, isItemOp f.op = true ∨ (f.op = 5 ∧ f.good = true)) ∧
+    fullScript D s c = (ch.items.map Conn.itemFrame).map (recvOfFrame D) ++ closedTail s c := by
+  have hok := hwf.get hc
+  refine ⟨?_, ?_, ?_⟩
+  · have hsub := hr.itemsLog c ch hc
+    have hall : ∀ f ∈ ch.items.map Conn.itemFrame, (f.id == (o.id : Int)) = true := by
+      intro f hf
+      obtain ⟨it, hit, rfl⟩ := List.mem_map.mp hf
+      obtain ⟨o2, ho2, hid⟩ := hr.items c ch it hc hit
+      rw [ho] at ho2; cases ho2
+      simp [hid]
+    have := hsub.filter (fun f => f.id == (o.id : Int))
+    rwa [List.filter_eq_self.mpr hall] at this
+  · intro f hf
+    obtain ⟨it, hit, rfl⟩ := List.mem_map.mp hf
+    have := hok.2 it hit
+    cases it with
+    | entry g => exact Or.inl this
+    | done g => exact Or.inr this
+  · rw [fullScript_eq hc, List.map_map]
+    congr 1
+    apply List.map_congr_left
+    intro it hit
+    exact recvOf_frame D (hok.2 it hit)
+
 end Ldap3V.ConnStream
